@@ -24,6 +24,7 @@ type verifServerMsg struct {
 	decoded *dhcpv4.DHCPv4
 	hwKind  int  // 0: the client's hardware address; 1: none (hlen 0); 2: another station's
 	xidOwn  bool // with hwKind != 0: whether the datagram bears the client's transaction id all the same
+	hwAddr  net.HardwareAddr // the client's hardware address when it is not verifHW
 }
 
 // verifScriptServer makes the connection answer the n-th transmission with the replies[n] stream.
@@ -33,6 +34,7 @@ type verifScript struct {
 	seen    []*dhcpv4.DHCPv4 // decoded client transmissions
 	dests   []net.Addr
 	hwMask  int // base-3 digits, one per reply built: its hwKind
+	hw      net.HardwareAddr // the client's hardware address when it is not verifHW
 }
 
 func verifTypedSID(m *verifServerMsg) []byte {
@@ -59,6 +61,7 @@ func (s *verifScript) build(tag string, sidKind int, typed int) *verifServerMsg 
 		m.sid = verifBytes(tag+".sid", 3)
 	}
 	m.yi = verifBytes(tag+".yiaddr", 4)
+	m.hwAddr = s.hw
 	m.hwKind = s.hwMask % 3
 	s.hwMask /= 3
 	if m.hwKind != 0 {
@@ -75,6 +78,9 @@ func (m *verifServerMsg) encode(xid dhcpv4.TransactionID) []byte {
 	p.TransactionID = xid
 	if !m.ownXID {
 		p.TransactionID = verifForeignXID
+	}
+	if m.hwAddr != nil {
+		p.ClientHWAddr = m.hwAddr
 	}
 	switch m.hwKind {
 	case 1:
@@ -308,6 +314,75 @@ func VerifC13RenewRelease(n int, sidKind int) {
 		if isUDP {
 			verifAssert(verifSame(ua.IP.To4(), sid), "release-sent-to-the-lease-server")
 			verifAssert(ua.Port == 67, "release-sent-to-port-67")
+		}
+	}
+	c.Close()
+	verifReach("end")
+}
+
+// VerifC13ReleaseFault: the one transmission Release makes fails in the socket. Release reports
+// the error, makes no further attempt, and in particular emits no RELEASE to any destination other
+// than the lease's server ("one RELEASE ... to the lease's server").
+func VerifC13ReleaseFault() {
+	base := newVerifConn()
+	bcast := &net.UDPAddr{IP: net.IP{255, 255, 255, 255}, Port: 67}
+	c, err := NewWithConn(base, verifHW, WithTimeout(time.Hour), WithRetry(1), WithServerAddr(bcast))
+	verifAssert(err == nil, "client-created")
+	leased := verifBytes("leased", 4)
+	sid := verifBytes("lease.sid", 4)
+	mk := func(t dhcpv4.MessageType, tag string) *dhcpv4.DHCPv4 {
+		return &dhcpv4.DHCPv4{OpCode: dhcpv4.OpcodeBootReply, HWType: 1, TransactionID: dhcpv4.TransactionID{9, 9, 9, 9}, ClientHWAddr: verifHW,
+			YourIPAddr: net.IP(leased), Flags: verifU16(tag + ".flags"), Options: dhcpv4.Options{53: []byte{byte(t)}, 54: sid}}
+	}
+	lease := &Lease{Offer: mk(dhcpv4.MessageTypeOffer, "offer"), ACK: mk(dhcpv4.MessageTypeAck, "ack")}
+	base.mu.Lock()
+	attempts, sent := base.writes, len(base.log)
+	base.failAt = base.writes
+	base.mu.Unlock()
+	rerr := c.Release(lease)
+	verifAssert(rerr != nil, "release-reports-the-write-error")
+	base.mu.Lock()
+	verifAssert(base.writes == attempts+1, "release-makes-exactly-one-transmission-attempt")
+	verifAssert(len(base.log) == sent, "no-release-to-another-destination")
+	base.mu.Unlock()
+	c.Close()
+	verifReach("end")
+}
+
+// VerifC13LongHW: a client whose hardware address is hwlen symbolic bytes (1..16; 8 is EUI-64, 16
+// fills the chaddr field) gets one OFFER and one ACK from the same server: DISCOVER, REQUEST and
+// the renewal REQUEST all carry that address whole, and the lease is made.
+func VerifC13LongHW(hwlen int) {
+	hw := net.HardwareAddr(verifBytes("hw", hwlen))
+	base := newVerifConn()
+	sc := &verifScript{conn: base, hw: hw}
+	conn := &verifServerConn{verifConn: base, script: sc}
+	offer, ack := sc.build("o", 1, 1), sc.build("a", 1, 1)
+	verifAssume(offer.ownXID)
+	verifAssume(ack.ownXID)
+	verifAssume(offer.mt == uint8(dhcpv4.MessageTypeOffer))
+	verifAssume(ack.mt == uint8(dhcpv4.MessageTypeAck))
+	ack.sid = offer.sid
+	renewAck := sc.build("r", 1, 1)
+	verifAssume(renewAck.ownXID)
+	verifAssume(renewAck.mt == uint8(dhcpv4.MessageTypeAck))
+	renewAck.sid = offer.sid
+	sc.replies = [][]*verifServerMsg{{offer}, {ack}, {renewAck}}
+	bcast := &net.UDPAddr{IP: net.IP{255, 255, 255, 255}, Port: 67}
+	c, err := NewWithConn(conn, hw, WithTimeout(time.Hour), WithRetry(1), WithServerAddr(bcast))
+	verifAssert(err == nil, "client-created")
+	lease, err := c.Request(newVerifCtx())
+	verifAssert(err == nil && lease != nil, "ack-yields-lease")
+	verifAssert(len(sc.seen) == 2, "request-follows-offer")
+	for _, m := range sc.seen {
+		verifAssert(verifSame(m.ClientHWAddr, hw), "request-carries-client-hwaddr")
+	}
+	if lease != nil {
+		_, rerr := c.Renew(newVerifCtx(), lease)
+		verifAssert(rerr == nil, "ack-renews")
+		verifAssert(len(sc.seen) == 3, "renew-sends-one-request")
+		if len(sc.seen) == 3 {
+			verifAssert(verifSame(sc.seen[2].ClientHWAddr, hw), "renew-carries-client-hwaddr")
 		}
 	}
 	c.Close()
